@@ -90,7 +90,7 @@ def scenario(rng, rich):
             ops.append(["put", "h1", rng.choice(W.FILES), rng.choice(["A", "BB", ""])])
         if rng.random() < 0.3:
             ops.append(["put", "h1", "sub/h.txt", "n"])
-    prov = rng.choice(["none", "copy", "copy2", "deepcopy", "pickle", "byid", "fresh"])
+    prov = rng.choice(["none", "copy", "copy2", "deepcopy", "pickle", "byid", "byid", "fresh"])
     if prov == "copy":
         ops.append(["copy", "h1", "h3"])
     elif prov == "copy2":
@@ -100,7 +100,10 @@ def scenario(rng, rich):
     elif prov == "pickle":
         ops.append(["pickle", "h1", "h3"])
     elif prov == "byid" and init:
-        ops.append(["openid", "h3", 0, W.ref_id(sp)[: rng.choice([32, 4, 8])]])
+        cold = rng.random() < 0.5
+        if cold:  # a new session: nothing in the state point cache
+            ops.append(["session", 0])
+        ops.append(["openid", "h3", 0, W.ref_id(sp)[: rng.choice([32, 4, 8])]] + (["lazy"] if rng.random() < 0.6 else []))
     elif prov == "fresh":
         ops.append(["open", "h3", 0, copy.deepcopy(sp)])
     e = rng.choice(edits_for(sp, rng, rich))
